@@ -16,13 +16,14 @@ MANIFEST = {
     'note': 'Reals, not floats. Time stamps are assumed increasing (dt_i > 0). The resistance forces themselves are C07.',
 }
 EXPLANATION = 'Whole-step SVN terms of SetSpeedTrainSim::solve_step vs the reference formulas of the statement.'
-RULES = ['C14-1.trace', 'C14-2.power', 'C14-3.clip', 'C14-4.accum', 'C14-5.reject']
+RULES = ['C14-1.trace', 'C14-2.power', 'C14-3.clip', 'C14-4.accum', 'C14-5.reject', 'C14-6.trace']
 ASSUMPTIONS = ['trace time stamps strictly increasing', 'identities over the reals']
 
 FID = 'SetSpeedTrainSim::solve_step'
 
 
 def run(ctx):
+    trace_handling(ctx)
     b = ctx.anchor('C14', FID)
     if b is None:
         return
@@ -80,3 +81,58 @@ def run(ctx):
         ctx.check(ok, 'C14-5.reject', '%s|speed[%s]>=0' % (FID, show(r, an.names).replace('self.', '').replace('arg1.', '')),
                   'every Ok path is guarded by this trace speed being >= 0',
                   'the step reads speed_trace.speed[%s] but no guard rejects a negative value there' % show(r, an.names), ctx.where(b))
+
+
+def trace_handling(ctx):
+    """C14-6.trace: the run covers the whole trace and the trace stays aligned with itself: `walk` steps exactly while the step
+    counter is below the trace length; `SpeedTrace::trim` cuts time, speed and the engine flags with one and the same index
+    range (so sample k of each still belongs together), and refuses an end beyond the trace; `trim_failed_steps` keeps exactly
+    the samples before the step that failed."""
+    R = 'C14-6.trace'
+    prog = ctx.prog
+    eng = engine(ctx)
+    b = prog.by_id.get('SetSpeedTrainSim::walk')
+    if b is None:
+        ctx.unproved(R, 'SetSpeedTrainSim::walk', 'anchor not found')
+    else:
+        an = analysis_or_fail(ctx, R, b)
+        if an is not None:
+            st = [c for c in an.calls if c.targets and 'SetSpeedTrainSim::step' in c.targets]
+            ok = len(st) == 1 and st[0].in_loop and len(st[0].pc) == 1 and st[0].pc[0][1] != '0'
+            c0 = st[0].pc[0][0] if ok else None
+            ok = ok and c0[0] == 'lt' and c0[1][0] == 'loopvar' and c0[1][2] == (('obj', 1), ('f', 'state'), ('f', 'i')) \
+                and c0[2][0] == 'len' and c0[2][1][0] == 'pre' and c0[2][1][1][:2] == (('obj', 1), ('f', 'speed_trace')) and c0[2][1][1][-1][1] in ('time', 'speed')
+            ctx.check(ok, R, 'SetSpeedTrainSim::walk|covers the trace', 'steps are made exactly while state.i < length of the trace',
+                      'step is called under %s' % ([(show(c_, an.names)[:120], o) for c_, o in st[0].pc] if st else None), ctx.where(b))
+    b = prog.by_id.get('SpeedTrace::trim')
+    if b is None:
+        ctx.unproved(R, 'SpeedTrace::trim', 'anchor not found')
+    else:
+        an = analysis_or_fail(ctx, R, b)
+        if an is not None:
+            rng = {}
+            for k in ('time', 'speed', 'engine_on'):
+                v = an.load((('obj', 1), ('f', k)), an.exit_state)
+                if v[0] == 'maybe':
+                    v = v[1]
+                if v[0] == 'pre' and v[1][-1][0] == 'idx' and ('f', k) in v[1]:
+                    rng[k] = v[1][-1][1]
+            ok = len(rng) == 3 and len(set(map(repr, rng.values()))) == 1
+            ctx.check(ok, R, 'SpeedTrace::trim|one range', 'time, speed and engine_on are cut with the same index range',
+                      'ranges: %s' % {k: show(v, an.names)[:90] for k, v in rng.items()}, ctx.where(b))
+            r0 = list(rng.values())[0] if rng else None
+            end = None
+            if r0 is not None and r0[0] == 'uf' and r0[1] == 'range' and r0[2][0] == 'agg':
+                end = dict(r0[2][2]).get('end')
+            okg = end is not None and any(g.holds_term() == mk('le', end, ('len', ('pre', (('obj', 1), ('f', 'time'))))) for g in an.guards)
+            ctx.check(okg, R, 'SpeedTrace::trim|end within the trace', 'an end index beyond the trace is refused', 'no guard end <= len(time)', ctx.where(b))
+    b = prog.by_id.get('SetSpeedTrainSim::trim_failed_steps')
+    if b is None:
+        ctx.unproved(R, 'SetSpeedTrainSim::trim_failed_steps', 'anchor not found')
+    else:
+        an = analysis_or_fail(ctx, R, b)
+        if an is not None:
+            tr_ = [c for c in an.calls if c.targets and 'SpeedTrace::trim' in c.targets]
+            ok = len(tr_) == 1 and tr_[0].argvals[1] == ('none',) and tr_[0].argvals[2] == ('some', ('pre', (('obj', 1), ('f', 'state'), ('f', 'i'))))
+            ctx.check(ok, R, 'SetSpeedTrainSim::trim_failed_steps', 'the trace is cut to the samples before the failed step: trim(None, Some(state.i))',
+                      'trim arguments: %s' % [[show(a, an.names)[:60] for a in c.argvals] for c in tr_], ctx.where(b))
